@@ -212,6 +212,7 @@ type State struct {
 	readFirst      map[string]bool // tracked fields read before written in this arm (liveness sampling)
 	decisions      []string        // outcomes of conditions over untracked data taken in this arm (self product: the two sides must agree on them)
 	mirrored       bool            // the dispatched byte was added to the number's text buffer in this arm
+	digitUse       bool            // the dispatched byte was used as a decimal digit (b - '0') in this arm
 	assigned       map[string]bool // receiver fields assigned in this arm
 	garbage        map[string]bool // scratch buffers whose content was consumed (or is left over) and not truncated since
 }
